@@ -12,6 +12,8 @@ def val_to_json(v, world=None):
         return v
     if isinstance(v, str):
         return v
+    if isinstance(v, float):
+        return {'a': 'float:' + repr(v)}
     if isinstance(v, (tuple, list)):
         return [val_to_json(x, world) for x in v]
     if isinstance(v, dict):
